@@ -148,6 +148,7 @@ def gen_case(seed, tier='quick'):
             elif k == 'eio':
                 import errno as _e
                 op['fault'] = {'kind': 'eio', 'at': rng.choice([1, 1, 2, 3]),
+                               'partial': rng.random() < 0.5,
                                'errno': rng.choice(
                                    [_e.EIO, _e.EIO, _e.EAGAIN, _e.EINTR,
                                     _e.EBUSY, _e.ETIMEDOUT, _e.EDQUOT])}
@@ -401,7 +402,8 @@ def _run(case, fs, amb):
                     at = max(1, int(st.steps * fault['frac']))
                 elif fault['kind'] == 'eio':
                     wf = {'kind': 'eio', 'at': fault['at'],
-                          'errno': fault.get('errno', 5)}
+                          'errno': fault.get('errno', 5),
+                          'partial': fault.get('partial', False)}
                 else:
                     # size of a fault-free dry run decides the byte quota
                     fs.reset_op(bufsize=op.get('bufsize'))
